@@ -401,4 +401,5 @@ func c16(p *model.Prog, r *report.Result) {
 	c16r4(p, r)
 	c16r6(p, r)
 	c16r78(p, r)
+	c16r9(p, r)
 }
